@@ -13,10 +13,21 @@ mod battery;
 
 const PLAIN: &str = "/verif/harness-plain/target/release/itv-plain";
 
+/// Process time zones the wall-clock leg is run under ("" = inherited environment).
+pub const TIME_ZONES: [&str; 4] = ["", "Asia/Kolkata", "America/Los_Angeles", "Pacific/Kiritimati"];
+
 fn run_plain(sub: &str) -> Value {
+    run_plain_tz(sub, "")
+}
+
+fn run_plain_tz(sub: &str, tz: &str) -> Value {
     let dir = util::fresh_dir("plain");
-    let out = Command::new(PLAIN)
-        .args([sub, dir.to_str().unwrap()])
+    let mut cmd = Command::new(PLAIN);
+    cmd.args([sub, dir.to_str().unwrap()]);
+    if !tz.is_empty() {
+        cmd.env("TZ", tz);
+    }
+    let out = cmd
         .output()
         .unwrap_or_else(|e| util::machinery_error(&format!("cannot run {PLAIN}: {e} (run ./setup.sh)")));
     if !out.status.success() {
@@ -50,11 +61,16 @@ pub fn battery_plain(n: usize) -> Vec<Vec<(String, String)>> {
 
 /// (expires text, delta seconds, outcome) from the hooks-off binary on the real clock.
 pub fn wallclock_plain() -> Vec<(String, i64, String)> {
-    run_plain("wallclock")
-        .as_array()
-        .cloned()
-        .unwrap_or_default()
-        .into_iter()
-        .map(|e| (e["expires"].as_str().unwrap_or("").to_string(), e["delta_s"].as_i64().unwrap_or(0), e["outcome"].as_str().unwrap_or("").to_string()))
-        .collect()
+    let mut all = vec![];
+    for tz in TIME_ZONES {
+        all.extend(
+            run_plain_tz("wallclock", tz)
+                .as_array()
+                .cloned()
+                .unwrap_or_default()
+                .into_iter()
+                .map(|e| (format!("{} [TZ={}]", e["expires"].as_str().unwrap_or(""), if tz.is_empty() { "inherited" } else { tz }), e["delta_s"].as_i64().unwrap_or(0), e["outcome"].as_str().unwrap_or("").to_string())),
+        );
+    }
+    all
 }
